@@ -100,7 +100,7 @@ theorem optVarsT (τ : Trivia) (hτ : ∀ q, Ws (τ q)) (vs : List VarDef) (hwf 
     have hnE : Nxt inp varBad false (p + tO.length + tI.length) := Nxt.of_hd g2 hdC (by rintro c rfl; decide)
     have hfail : Fails gList (30 + 100) true (.call R.VariableDefinition) .nonAtomic (At inp (p + tO.length + tI.length)) :=
       (variableDefinition_fails (headNot_of_hd g2 hdC (by rintro c rfl; decide))).mono (by omega)
-    obtain ⟨pss, hmany, hgood⟩ := items_many1K (rVarDef τ) false false (.call R.VariableDefinition) varBad 30
+    obtain ⟨pss, hmany, hgood⟩ := items_many1K (rVarDef τ) false false (.call R.VariableDefinition) (fun _ => varBad) 30
       (VarGood τ inp) r a (p + tO.length)
       (fun x hx s q hat hnx => by
         obtain ⟨pr, hr, hok, hbd⟩ := varDefT τ hτ x (hwf x hx) hat hnx
